@@ -277,7 +277,7 @@ func Main(t *testing.T, engine string, props map[string]PropSpec) {
 				}
 			}
 			_ = os.MkdirAll(*flagRepDir, 0o755)
-			path := filepath.Join(*flagRepDir, fmt.Sprintf("%s-%d-%d-%d.json", *flagProp, *flagSeed, idx, seenKeys[key]))
+			path := filepath.Join(*flagRepDir, fmt.Sprintf("%s-%d-%d-%s.json", *flagProp, *flagSeed, idx, shortHash(key)))
 			b, _ := json.MarshalIndent(rf, "", " ")
 			_ = os.WriteFile(path, b, 0o644)
 			out.emit(map[string]any{"t": "viol", "run": idx, "key": key, "class": v.Class, "sig": v.Sig, "detail": v.Detail, "replay": path})
@@ -392,4 +392,13 @@ func Shrink(t *testing.T, c *Case, key string, exec func(*testing.T, *Case) *Res
 		}
 	}
 	return best, bestRes
+}
+
+func shortHash(s string) string {
+	h := uint64(14695981039346656037)
+	for i := 0; i < len(s); i++ {
+		h ^= uint64(s[i])
+		h *= 1099511628211
+	}
+	return fmt.Sprintf("%08x", uint32(h^(h>>32)))
 }
